@@ -40,20 +40,20 @@ pub fn build_dict(d: &DictSrc) -> Option<Result<Dictionary, ()>> {
     guarded(|| {
         if d.kind == 0 {
             SystemDictionaryBuilder::from_readers(
-                d.lex.as_bytes(),
-                d.matrix.as_bytes(),
-                d.chardef.as_bytes(),
-                d.unk.as_bytes(),
+                &d.lex[..],
+                &d.matrix[..],
+                &d.chardef[..],
+                &d.unk[..],
             )
             .map_err(|_| ())
         } else {
             SystemDictionaryBuilder::from_readers_with_bigram_info(
-                d.lex.as_bytes(),
-                d.right.as_bytes(),
-                d.left.as_bytes(),
-                d.cost.as_bytes(),
-                d.chardef.as_bytes(),
-                d.unk.as_bytes(),
+                &d.lex[..],
+                &d.right[..],
+                &d.left[..],
+                &d.cost[..],
+                &d.chardef[..],
+                &d.unk[..],
                 d.kind == 2,
             )
             .map_err(|_| ())
@@ -79,13 +79,13 @@ pub fn def_line(name: &str, d: &DictSrc) -> (String, Option<Dictionary>) {
     let mut line = format!(
         "def {name} KIND {} LEX {} MATRIX {} RIGHT {} LEFT {} COST {} CHAR {} UNK {} IMPL ",
         d.kind,
-        hexs(&d.lex),
-        hexs(&d.matrix),
-        hexs(&d.right),
-        hexs(&d.left),
-        hexs(&d.cost),
-        hexs(&d.chardef),
-        hexs(&d.unk)
+        hex(&d.lex),
+        hex(&d.matrix),
+        hex(&d.right),
+        hex(&d.left),
+        hex(&d.cost),
+        hex(&d.chardef),
+        hex(&d.unk)
     );
     match build_dict(d) {
         None => {
